@@ -49,6 +49,7 @@ def run(prog, rep, tier):
     check_array_coverage(prog, r5)
     r6 = rep.rule("R17.6", "read_extcom: a typed extended community accounts for all 8 octets and for the transitivity bit")
     check_extcom_reader(prog, r6)
+    check_extcom_writer(prog, r6)
 
 
 def check_ctor_classes(prog, r):
@@ -437,3 +438,43 @@ def check_extcom_reader(prog, r):
                    "%s has no is_transitive field and is built whether or not the non-transitive bit (0x40) of the type octet is set: write_extcom() re-emits it with the "
                    "transitive type, so a non-transitive community changes when listed and re-added" % name, fv.loc(bi))
     r.floor("typed extended-community messages built by read_extcom", n, 10)
+
+
+# fields of an API extended-community message write_extcom may leave unread, with the reason
+EXTCOM_WRITE_UNREAD = {
+    ("UnknownExtended", "type"): "`value` carries all eight octets including the type octet; read_extcom fills `type` as a convenience copy",
+}
+
+
+def check_extcom_writer(prog, r):
+    """write_extcom is the inverse of read_extcom: each typed message is turned back into 8 octets.  Every field of the message
+    (is_transitive, sub_type, the administrators, ..) is part of the value, so the arm that writes a message must read all of
+    them; a field it never reads is replaced by a constant and the community changes when it is listed and re-added."""
+    from .c16 import _place_reads, _first_field
+    k = prog.one(r"rustybgpd::convert::write_extcom")
+    r.analysed(prog.name(k))
+    read = {}
+    for kk in prog.with_closures(k):
+        fv = view(prog, kk)
+        for b, pl in _place_reads(fv):
+            m = re.search(r"rustybgp_api::(\w+Extended)\b", fv.f["locals"][pl["l"]])
+            if m:
+                read.setdefault(m.group(1), set())
+                if _first_field(pl):
+                    read[m.group(1)].add(_first_field(pl))
+    fv = view(prog, k)
+    n = 0
+    for ty in sorted(read):
+        try:
+            fields = [f["n"] for f in prog.adt(r"rustybgp_api::%s$" % ty)["variants"][0]["fields"]]
+        except Exception:
+            r.unanalysable("write_extcom: fields of rustybgp_api::%s not found" % ty, fv.loc())
+            continue
+        n += 1
+        missing = [f for f in fields if f not in read[ty] and (ty, f) not in EXTCOM_WRITE_UNREAD]
+        if missing:
+            r.fail(prog.name(k), "extcom-field-unwritten:%s.%s" % (ty, "+".join(missing)), "write_extcom never reads %s of %s: the octets it stands for are written as a constant, so a community "
+                   "whose %s differs from that constant is stored (and listed back) as a different community" % (", ".join(missing), ty, missing[0]), fv.loc())
+        else:
+            r.ok("write_extcom: every field of %s goes into the octets written" % ty)
+    r.floor("typed extended-community messages written by write_extcom", n, 11)
